@@ -50,6 +50,16 @@ MUT = [
      'find_last_valid_footer returns a footer whose TOC hash does not match'),
     ('C39-probe-shift', 'C39', 'src/types/sketch_track.rs', "    let h2 = usize::try_from((token_hash >> 16) % (filter_bits as u64)).unwrap_or(0);", "    let h2 = usize::try_from((token_hash >> 17) % (filter_bits as u64)).unwrap_or(0);",
      'term filter probe uses a different bit position than the writer'),
+    ('C11-frame-cut-reversed', 'C11', 'src/memvid/search/api.rs', "                if frame.id > cutoff_frame {", "                if frame.id < cutoff_frame {", 'get_replay_frame_ids keeps frames after the cut-off'),
+    ('C11-ts-cut-inclusive-wrong', 'C11', 'src/memvid/search/api.rs', "                if frame.timestamp > cutoff_ts {", "                if frame.timestamp >= cutoff_ts + 10 {", 'get_replay_frame_ids lets frames up to 10 s after as_of_ts through'),
+    ('C14-remove-noop', 'C14', 'src/vec.rs', "            VecIndex::Uncompressed { documents } => {\n                documents.retain(|doc| doc.frame_id != frame_id);\n            }", "            VecIndex::Uncompressed { documents: _ } => {}", 'VecIndex::remove ignores the exact representation'),
+    ('C19-try-open-unguarded', 'C19', 'src/memvid/lifecycle.rs', "    pub(crate) fn try_open<P: AsRef<Path>>(path: P) -> Result<Self> {\n        let path_ref = path.as_ref();\n        ensure_single_file(path_ref)?;", "    pub(crate) fn try_open<P: AsRef<Path>>(path: P) -> Result<Self> {\n        let path_ref = path.as_ref();", 'try_open skips ensure_single_file'),
+    ('C27-at-time-ascending', 'C27', 'src/types/memories_track.rs', "            .filter(|c| c.effective_timestamp() <= timestamp)\n            .collect();\n\n        cards.sort_by(|a, b| {\n            let a_time = a.effective_timestamp();\n            let b_time = b.effective_timestamp();\n            b_time.cmp(&a_time)", "            .filter(|c| c.effective_timestamp() <= timestamp)\n            .collect();\n\n        cards.sort_by(|a, b| {\n            let a_time = a.effective_timestamp();\n            let b_time = b.effective_timestamp();\n            a_time.cmp(&b_time)", 'get_at_time sorts ascending (returns the oldest value)'),
+    ('C27-at-time-strict', 'C27', 'src/types/memories_track.rs', "            .filter(|c| c.effective_timestamp() <= timestamp)", "            .filter(|c| c.effective_timestamp() < timestamp)", 'get_at_time excludes a card stamped exactly at the query time'),
+    ('C28-incremental-when-dirty', 'C28', M, "                if self.tantivy_dirty {\n                    // instant_index was used", "                if false && self.tantivy_dirty {\n                    // instant_index was used", 'rebuild_indexes keeps provisional instant-index entries'),
+    ('C28-instant-index-not-dirty', 'C28', M, "                        engine.add_frame(&temp_frame, text)?;\n                        engine.soft_commit()?;\n                        self.tantivy_dirty = true;", "                        engine.add_frame(&temp_frame, text)?;\n                        engine.soft_commit()?;", 'put_internal instant index does not mark tantivy_dirty'),
+    ('C29-nonce-off-by-one', 'C29', 'src/encryption/capsule_stream.rs', None, None, 'encryption config only (hand-tested while writing the rule)'),
+    ('C42-vacuum-keeps-deleted', 'C42', M, "            .filter(|frame| frame.status == FrameStatus::Active)\n            .cloned()\n            .collect();\n", "            .cloned()\n            .collect();\n", 'vacuum treats deleted frames like active ones (first filter)'),
     ('C40-end-batch-order', 'C40', M, "        self.wal.flush()?;\n        self.wal.set_skip_sync(false);", "        self.wal.set_skip_sync(false);\n        self.wal.flush()?;",
      'EQUIVALENT: end_batch restores sync before flushing (flush syncs unconditionally) - the check must stay silent'),
 ]
